@@ -9,7 +9,8 @@ package main
 // struct literals, composite literals of slices/maps (as lists), len of strings/arrays.
 // Also: time.Time / netip.Addr values and their comparison methods (modelled by Base/GoStd.lean),
 // == / != on structs all of whose fields are modelled, function-typed results given as function
-// literals (-> Lean lambdas), and a trailing panic() (the function then returns Option).
+// literals (-> Lean lambdas), and a trailing panic() (the function then returns Option); values of
+// the predeclared type `error` as Bool (non-nil?), with fmt.Errorf / errors.New as `true`.
 // Anything else is an extraction error (= broken tie, reported by bin/check).
 //
 // Semantics chosen (recorded in the trusted base):
@@ -98,6 +99,11 @@ func bitWidth(b *types.Basic) int {
 	}
 }
 
+// the predeclared interface type `error` is modelled by whether the value is non-nil
+const errorAssumption = "error values are modelled by a Bool (true = a non-nil error is returned); fmt.Errorf / errors.New always return non-nil; the error text is not modelled"
+
+func isErrorType(ty types.Type) bool { return types.Identical(ty, types.Universe.Lookup("error").Type()) }
+
 func isByteSeq(t types.Type) bool {
 	switch u := t.Underlying().(type) {
 	case *types.Array:
@@ -133,6 +139,10 @@ func (t *Tr) leanType(ty types.Type, pos token.Pos) string {
 	}
 	if isBoolTable(ty) {
 		return "(Nat → " + t.leanType(ty.Underlying().(*types.Array).Elem(), pos) + ")"
+	}
+	if isErrorType(ty) {
+		t.Assume[errorAssumption] = true
+		return "Bool"
 	}
 	switch u := ty.Underlying().(type) {
 	case *types.Signature:
@@ -230,6 +240,9 @@ func (t *Tr) zero(ty types.Type, pos token.Pos) string {
 	}
 	if isBoolTable(ty) {
 		return "(fun _ => " + t.zero(ty.Underlying().(*types.Array).Elem(), pos) + ")"
+	}
+	if isErrorType(ty) {
+		return "false"
 	}
 	switch u := ty.Underlying().(type) {
 	case *types.Basic:
@@ -477,6 +490,9 @@ func (t *Tr) expr(e ast.Expr) string {
 			}
 			return t.nameOf(o)
 		case *types.Nil:
+			if tv, ok := t.info().Types[x]; ok && tv.Type != nil && isErrorType(tv.Type) {
+				return "false"
+			}
 			return "[]"
 		}
 		t.fail(x.Pos(), "unsupported identifier %s (%T)", x.Name, obj)
@@ -758,6 +774,10 @@ func (t *Tr) call(c *ast.CallExpr) string {
 			return "(" + e + "." + fobj.Name() + " " + strings.Join(args, " ") + ")"
 		}
 	}
+	if fobj.Pkg() != nil && (fobj.FullName() == "fmt.Errorf" || fobj.FullName() == "errors.New") {
+		t.Assume[errorAssumption] = true
+		return "true"
+	}
 	if fobj.Pkg() == nil || !strings.HasPrefix(fobj.Pkg().Path(), repoModule) {
 		t.fail(c.Pos(), "call to non-repo function %s", fobj.FullName())
 	}
@@ -949,8 +969,12 @@ func (t *Tr) stmts(ss []ast.Stmt, d int) string {
 		var rs []string
 		for i, r := range x.Results {
 			v := t.expr(r)
-			// implicit conversion of untyped constants handled by constLit typing
-			_ = i
+			// implicit conversion of untyped constants handled by constLit typing; an untyped nil
+			// returned as an `error` result is "no error"
+			if id, ok := r.(*ast.Ident); ok && id.Name == "nil" && t.curFn != nil && i < t.curFn.Results().Len() &&
+				len(x.Results) == t.curFn.Results().Len() && isErrorType(t.curFn.Results().At(i).Type()) {
+				v = "false"
+			}
 			rs = append(rs, v)
 		}
 		if len(rs) == 1 {
